@@ -111,11 +111,20 @@ theorem namesWritableChain_eq (env : Env) (chain : List Tree) (sub : Tree) :
 
 /-! ### `unresolved_namespaces` as a recursive function -/
 
-/-- The namespaces one element contributes: of its own name, then of its attribute names, when
-    no prefix at all is bound to them in the top frame (`is_namespace_known`). -/
+theorem elementPrefix_top (env : Env) (s : FStack) (name : Nat) :
+    FStack.elementPrefix env s name = FStack.elementPrefix env [s.top] name := by
+  simp [FStack.elementPrefix, FStack.top]
+
+theorem attributePrefix_top (env : Env) (s : FStack) (name : Nat) :
+    FStack.attributePrefix env s name = FStack.attributePrefix env [s.top] name := by
+  simp [FStack.attributePrefix, FStack.top]
+
+/-- The namespaces one element contributes: of its own name when `element_prefix` fails in the
+    top frame, then of every attribute name for which `attribute_prefix` fails. -/
 def unresolvedOfElement (env : Env) (top : List (Nat × Nat)) (t : Tree) (name : Nat) : List Nat :=
-  (name :: t.attrs.map (·.1)).filterMap fun n =>
-    if !FStack.isNamespaceKnown [top] (env.nsOfName n) then some (env.nsOfName n) else none
+  (if !exceptIsOk (FStack.elementPrefix env [top] name) then [env.nsOfName name] else []) ++
+    (t.attrs.map (·.1)).filterMap fun n =>
+      if !exceptIsOk (FStack.attributePrefix env [top] n) then some (env.nsOfName n) else none
 
 def unresolvedRec (env : Env) (top : List (Nat × Nat)) : Tree → List Nat
   | .node v ks =>
@@ -152,10 +161,10 @@ theorem unresolved_fold (env : Env) : ∀ (t : Tree) (pre : Path) (st : Unresolv
           { fs := st.fs.push (Tree.node (.element name) ks).nsDecls,
             out := st.out ++ unresolvedOfElement env
               (pushTop st.fs.top (Tree.node (.element name) ks).nsDecls) (.node (.element name) ks) name } := by
-        simp only [unresolvedStep, Tree.value, unresolvedOfElement, List.filterMap_cons,
-          isNamespaceKnown_top' (st.fs.push _), FStack.top_push]
-        rw [foldl_push_if (fun n => !FStack.isNamespaceKnown
-          [pushTop st.fs.top (Tree.node (.element name) ks).nsDecls] (env.nsOfName n)) (fun n => env.nsOfName n)]
+        simp only [unresolvedStep, Tree.value, unresolvedOfElement,
+          elementPrefix_top env (st.fs.push _), attributePrefix_top env (st.fs.push _), FStack.top_push]
+        rw [foldl_push_if (fun n => !exceptIsOk (FStack.attributePrefix env
+          [pushTop st.fs.top (Tree.node (.element name) ks).nsDecls] n)) (fun n => env.nsOfName n)]
         split <;> simp
       rw [hstart, unresolved_fold_list env ks pre 0]
       simp only [unresolvedStep, Tree.value, Value.isElement, ↓reduceIte, hasNamespaceDeclarations,
